@@ -127,6 +127,51 @@ theorem approve_some {s s' : St} {now : Int} {caller id r : Nat} (h : approve s 
   | none => rfl
   | some a => simp [ha] at h4
 
+/-- a successful batch approval: the caller holds the timelocked role named by the call; every listed buffer exists,
+belongs to THAT role's executor, was unapproved and is now approved by the caller at `now`; nothing else changes;
+no buffer is listed twice. -/
+theorem approveBatch_some {now : Int} {caller r : Nat} : ∀ (ids : List Nat) {s s' : St},
+    approveBatch s now caller r ids = some s' →
+    s.mem caller (tld r) = true ∧ s'.delay = s.delay ∧ s'.mem = s.mem ∧
+    (∀ id, id ∈ ids → ∃ b, s.bufs id = some b ∧ b.role = r ∧ b.approved = false ∧ b.approver = none ∧
+        s'.bufs id = some { b with approved := true, approvedAt := now, approver := some caller }) ∧
+    (∀ id, id ∉ ids → s'.bufs id = s.bufs id) ∧ ids.Nodup := by
+  intro ids
+  induction ids with
+  | nil =>
+    intro s s' h
+    simp only [approveBatch] at h
+    split at h
+    · rename_i hm; cases h
+      exact ⟨hm, rfl, rfl, fun id hid => by simp at hid, fun _ _ => rfl, List.nodup_nil⟩
+    · cases h
+  | cons id ids ih =>
+    intro s s' h
+    simp only [approveBatch] at h
+    rcases Option.eq_none_or_eq_some (approve s now caller id r) with ha | ⟨s1, ha⟩
+    · rw [ha] at h; cases h
+    · rw [ha] at h
+      obtain ⟨b, hb, hr, hm, h1, h2, rfl⟩ := approve_some ha
+      obtain ⟨_, hd, hmem, hin, hout, hnd⟩ := ih h
+      have hnotin : id ∉ ids := by
+        intro hmem'
+        obtain ⟨b', hb', _, hna, _⟩ := hin id hmem'
+        simp [bufs_setBuf] at hb'
+        subst hb'
+        simp at hna
+      refine ⟨hm, hd, hmem, ?_, ?_, List.nodup_cons.2 ⟨hnotin, hnd⟩⟩
+      · intro j hj
+        rcases List.mem_cons.1 hj with rfl | hj'
+        · exact ⟨b, hb, hr, h1, h2, by rw [hout j hnotin]; simp [bufs_setBuf]⟩
+        · obtain ⟨b', hb', rest⟩ := hin j hj'
+          have hne : j ≠ id := fun e => hnotin (e ▸ hj')
+          simp [bufs_setBuf, hne] at hb'
+          exact ⟨b', hb', rest⟩
+      · intro j hj
+        have hne : j ≠ id := fun e => hj (e ▸ List.mem_cons_self)
+        have hni : j ∉ ids := fun e => hj (List.mem_cons_of_mem _ e)
+        rw [hout j hni]; simp [bufs_setBuf, hne]
+
 theorem cancel_some {s s' : St} {caller id r rr : Nat} (h : cancel s caller id r rr = some s') :
     ∃ b, s.bufs id = some b ∧ b.role = r ∧ b.rentReceiver = rr ∧ s.mem caller ADMIN = true ∧ s' = setBuf s id none := by
   unfold cancel at h
@@ -199,6 +244,23 @@ theorem inv_step {s : St} (h : Inv s) (op : Op) : Inv (step s op).1 := by
     | some s' =>
       obtain ⟨b, hb, hr, _, _, _, rfl⟩ := approve_some hc
       exact inv_setBuf_some h id _ (by simp) (h.signer id b hb)
+  | approveb now caller r ids =>
+    simp only [step]
+    cases hc : approveBatch s now caller r ids with
+    | none => exact h
+    | some s' =>
+      obtain ⟨_, _, _, hin, hout, _⟩ := approveBatch_some ids hc
+      constructor
+      · intro i b' hb'
+        by_cases hi : i ∈ ids
+        · obtain ⟨b, hb, _, _, _, hs'⟩ := hin i hi
+          rw [hs'] at hb'; cases hb'; simp
+        · rw [hout i hi] at hb'; exact h.flag i b' hb'
+      · intro i b' hb'
+        by_cases hi : i ∈ ids
+        · obtain ⟨b, hb, _, _, _, hs'⟩ := hin i hi
+          rw [hs'] at hb'; cases hb'; exact h.signer i b hb
+        · rw [hout i hi] at hb'; exact h.signer i b' hb'
   | cancel now caller id r rr =>
     simp only [step]
     cases hc : cancel s caller id r rr with
@@ -257,6 +319,11 @@ theorem delay_step (s : St) (op : Op) : s.delay ≤ (step s op).1.delay := by
     cases hc : approve s now caller id r with
     | none => exact Nat.le_refl _
     | some s' => obtain ⟨b, _, _, _, _, _, rfl⟩ := approve_some hc; exact Nat.le_refl _
+  | approveb now caller r ids =>
+    simp only [step]
+    cases hc : approveBatch s now caller r ids with
+    | none => exact Nat.le_refl _
+    | some s' => obtain ⟨_, hd, _⟩ := approveBatch_some ids hc; rw [hd]; exact Nat.le_refl _
   | cancel now caller id r rr =>
     simp only [step]
     cases hc : cancel s caller id r rr with
@@ -282,7 +349,7 @@ theorem delay_step (s : St) (op : Op) : s.delay ≤ (step s op).1.delay := by
 
 def isCreated (id : Nat) : Event → Bool | .created i _ => i == id | _ => false
 def isClosed (id : Nat) : Event → Bool | .cancelled i => i == id | .executed i _ => i == id | _ => false
-def isApproved (id : Nat) : Event → Bool | .approved i _ => i == id | _ => false
+def isApproved (id : Nat) : Event → Bool | .approved i _ => i == id | .approvedBatch ids _ => ids.contains id | _ => false
 
 def openCount (s : St) (id : Nat) : Nat := if (s.bufs id).isSome then 1 else 0
 def pendingCount (s : St) (id : Nat) : Nat :=
@@ -336,6 +403,15 @@ theorem step_counts (s : St) (op : Op) (id : Nat) :
       · subst hi; simp [step, hc, isClosed, isCreated, isApproved, openCount, pendingCount, bufs_setBuf, hb, hna]
       · have : id ≠ i := fun h => hi h.symm
         simp [step, hc, isClosed, isCreated, isApproved, openCount, pendingCount, bufs_setBuf, hi, this]
+  | approveb now caller r ids =>
+    rcases Option.eq_none_or_eq_some (approveBatch s now caller r ids) with hc | ⟨s', hc⟩
+    · simp [step, hc, isClosed, isCreated, isApproved]
+    · obtain ⟨_, _, _, hin, hout, _⟩ := approveBatch_some ids hc
+      by_cases hi : id ∈ ids
+      · obtain ⟨b, hb, _, hna, _, hs'⟩ := hin id hi
+        simp [step, hc, isClosed, isCreated, isApproved, openCount, pendingCount, hb, hs', hna, hi]
+      · have e := hout id hi
+        simp [step, hc, isClosed, isCreated, isApproved, openCount, pendingCount, e, hi]
   | cancel now caller i r rr =>
     rcases Option.eq_none_or_eq_some (cancel s caller i r rr) with hc | ⟨s', hc⟩
     · simp [step, hc, isClosed, isCreated, isApproved]
@@ -353,5 +429,111 @@ theorem step_counts (s : St) (op : Op) (id : Nat) :
       · subst hi; simp [step, hc, isClosed, isCreated, isApproved, openCount, pendingCount, bufs_setBuf, hb]
       · have : id ≠ i := fun h => hi h.symm
         simp [step, hc, isClosed, isCreated, isApproved, openCount, pendingCount, bufs_setBuf, hi, this]
+
+/-! ### ghost: every approved buffer was approved by a holder of ITS OWN timelocked role -/
+
+def GInv (g : GSt) : Prop := ∀ id b, g.s.bufs id = some b → b.approved = true → g.held id = true
+
+theorem gstep_fst (g : GSt) (op : Op) : (gstep g op).1.s = (step g.s op).1 ∧ (gstep g op).2 = (step g.s op).2 := ⟨rfl, rfl⟩
+
+theorem ginv_step {g : GSt} (h : GInv g) (op : Op) : GInv (gstep g op).1 := by
+  cases op with
+  | grant u role =>
+    have e : ((step g.s (.grant u role)).1).bufs = g.s.bufs := by
+      simp only [step]
+      cases hg : grant g.s u role with
+      | none => rfl
+      | some s' => unfold grant at hg; split at hg; · cases hg
+                   cases hg; rfl
+    intro id b hb; simp only [gstep, step] at hb ⊢; exact h id b (by rw [← e]; exact hb)
+  | revoke u role =>
+    have e : ((step g.s (.revoke u role)).1).bufs = g.s.bufs := by
+      simp only [step]
+      cases hg : revoke g.s u role with
+      | none => rfl
+      | some s' => unfold revoke at hg; split at hg; · cases hg
+                   cases hg; rfl
+    intro id b hb; simp only [gstep, step] at hb ⊢; exact h id b (by rw [← e]; exact hb)
+  | delay now caller delta =>
+    have e : ((step g.s (.delay now caller delta)).1).bufs = g.s.bufs := by
+      simp only [step]
+      cases hc : increaseDelay g.s caller delta with
+      | none => rfl
+      | some s' =>
+        unfold increaseDelay at hc
+        split at hc; · cases hc
+        split at hc; · cases hc
+        split at hc; · cases hc
+        cases hc; rfl
+    intro id b hb; simp only [gstep, step] at hb ⊢; exact h id b (by rw [← e]; exact hb)
+  | create now caller i r prog numAcc dataLen actualLen data signers accs =>
+    rcases Option.eq_none_or_eq_some (create g.s caller i r prog numAcc dataLen actualLen data signers accs) with hc | ⟨p, hc⟩
+    · intro id b hb; simp only [gstep, step, hc] at hb ⊢; exact h id b hb
+    · obtain ⟨s', ix⟩ := p
+      obtain ⟨_, _, _, _, _, _, _, rfl⟩ := create_some hc
+      intro id b hb hap
+      simp only [gstep, step, hc] at hb ⊢
+      rw [bufs_setBuf] at hb
+      by_cases hi : id = i
+      · simp [hi] at hb; subst hb; simp at hap
+      · simp [hi] at hb ⊢; exact h id b hb hap
+  | approve now caller i r =>
+    rcases Option.eq_none_or_eq_some (approve g.s now caller i r) with hc | ⟨s', hc⟩
+    · intro id b hb; simp only [gstep, step, hc] at hb ⊢; exact h id b hb
+    · obtain ⟨b0, hb0, hr, hm, _, _, rfl⟩ := approve_some hc
+      intro id b hb hap
+      simp only [gstep, step, hc] at hb ⊢
+      rw [bufs_setBuf] at hb
+      by_cases hi : id = i
+      · subst hi; simp [heldNow, hb0, hr, hm]
+      · simp [hi] at hb ⊢; exact h id b hb hap
+  | approveb now caller r ids =>
+    rcases Option.eq_none_or_eq_some (approveBatch g.s now caller r ids) with hc | ⟨s', hc⟩
+    · intro id b hb; simp only [gstep, step, hc] at hb ⊢; exact h id b hb
+    · obtain ⟨hm, _, _, hin, hout, _⟩ := approveBatch_some ids hc
+      intro id b hb hap
+      simp only [gstep, step, hc] at hb ⊢
+      by_cases hi : id ∈ ids
+      · obtain ⟨b0, hb0, hr, _, _, _⟩ := hin id hi
+        simp [hi, heldNow, hb0, hr, hm]
+      · rw [hout id hi] at hb
+        simp [hi]; exact h id b hb hap
+  | cancel now caller i r rr =>
+    rcases Option.eq_none_or_eq_some (cancel g.s caller i r rr) with hc | ⟨s', hc⟩
+    · intro id b hb; simp only [gstep, step, hc] at hb ⊢; exact h id b hb
+    · obtain ⟨b0, _, _, _, _, rfl⟩ := cancel_some hc
+      intro id b hb hap
+      simp only [gstep, step, hc] at hb ⊢
+      rw [bufs_setBuf] at hb
+      split at hb
+      · cases hb
+      · exact h id b hb hap
+  | exec now caller i r rr =>
+    rcases Option.eq_none_or_eq_some (exec g.s now caller i r rr) with hc | ⟨p, hc⟩
+    · intro id b hb; simp only [gstep, step, hc] at hb ⊢; exact h id b hb
+    · obtain ⟨s', ix⟩ := p
+      obtain ⟨b0, a, _, _, _, _, _, _, _, _, _, rfl⟩ := exec_some hc
+      intro id b hb hap
+      simp only [gstep, step, hc] at hb ⊢
+      rw [bufs_setBuf] at hb
+      split at hb
+      · cases hb
+      · exact h id b hb hap
+
+theorem ginv_init (d : Nat) : GInv (ginit d) := by
+  intro id b hb; simp [ginit, init] at hb
+
+theorem ginv_run {g : GSt} (h : GInv g) (ops : List Op) : GInv (grun g ops).1 := by
+  induction ops generalizing g with
+  | nil => exact h
+  | cons op ops ih => exact ih (ginv_step h op)
+
+/-- the ghost run is the plain run with the ghost attached. -/
+theorem grun_run (g : GSt) (ops : List Op) : (grun g ops).1.s = (run g.s ops).1 ∧ (grun g ops).2 = (run g.s ops).2 := by
+  induction ops generalizing g with
+  | nil => exact ⟨rfl, rfl⟩
+  | cons op ops ih =>
+    obtain ⟨h1, h2⟩ := ih (gstep g op).1
+    exact ⟨h1, by simp only [grun, run]; rw [h2]; rfl⟩
 
 end Gmx.Tl
